@@ -583,7 +583,12 @@ def c18_err(err, kind, b, out, tag):
     L = len(b)
     mn, pt = (None, None)
     if k in KIND_MIN or k == "custom": mn, pt = kind_min_pt(kind)
-    if k == "packet": mn = 4
+    if k == "packet":
+        # the generic parser is the typed parser of the input's own type octet (C12), so the
+        # same statement applies with that type's minimum; unknown types are framed only
+        PT_KIND = {v: kk for kk, v in KIND_PT.items()}
+        pt = b[1] if L >= 2 else None
+        mn = KIND_MIN.get(PT_KIND.get(pt), 4) if L >= 4 else 4
     if k == "rb": mn = 24
     if name == "UnsupportedVersion":
         v = int(args[0])
@@ -601,7 +606,7 @@ def c18_err(err, kind, b, out, tag):
     # short input
     if mn is not None and k not in ("compound",) and L < mn:
         if err != f"Truncated({mn},{L})": out.append(f"{tag}{L} bytes < minimum {mn} reported as {err}")
-    elif mn is not None and k in KIND_PT or k == "custom":
+    elif mn is not None and k in KIND_PT or k == "custom" or k == "packet":
         if L >= 4 and b[0] >> 6 == 2 and b[1] == pt:
             H = 4 * (be16(b, 2) + 1)
             if H != L:
@@ -619,8 +624,12 @@ def oracle_C18(ctx, i):
         r = I.get(p + "res", "")
         if r.startswith("err:"):
             c18_err(r[4:], kind, b, out, p)
-        if kind == "packet" and r == "ok" or kind == "unknown" and r == "ok":
-            continue
+        if kind == "compound" and r == "ok":
+            # errors yielded by the iterator are the generic parser's errors about that tile
+            ts = ref_tiling(b) or []
+            for j, (o, n) in enumerate(ts):
+                e = I.get(f"{p}p{j}.res", "")
+                if e.startswith("err:"): c18_err(e[4:], "packet", b[o:o + n], out, f"{p}p{j}.")
     return out
 
 
